@@ -41,7 +41,22 @@ def sval(v):
     return None if v == NULL else "s%d" % v
 
 
+_UF = {"exp": math.exp, "log": math.log, "log10": math.log10, "sqrt": math.sqrt, "sin": math.sin, "cos": math.cos,
+       "sinh": math.sinh, "cosh": math.cosh, "tanh": math.tanh, "arctan": math.atan, "expm1": math.expm1, "log1p": math.log1p}
+
+
 def nval(v):
+    if isinstance(v, list):
+        # <<"q", num, den>> exact fraction; <<"uf", name, x>> uninterpreted function realised with Python's math
+        if v[0] == "q":
+            return float(v[1]) / float(v[2])
+        if v[0] == "uf":
+            return float(_UF[v[1]](float(v[2])))
+        raise ValueError(v)
+    if v == "PINF":
+        return float("inf")
+    if v == "NINF":
+        return float("-inf")
     return None if v == NULL else float(v)
 
 
@@ -85,7 +100,7 @@ def make_pandas(tbl, kinds, nm=IDENT, int_cols=(), variant=None):
         elif c in int_cols and all(v != NULL for v in vals):
             data[nm.c(c)] = pandas.Series([int(v) for v in vals], dtype="int64")
         else:
-            data[nm.c(c)] = pandas.Series([numpy.nan if v == NULL else float(v) for v in vals], dtype="float64")
+            data[nm.c(c)] = pandas.Series([numpy.nan if v == NULL else nval(v) for v in vals], dtype="float64")
     df = pandas.DataFrame(data, columns=[nm.c(c) for c in tbl["cols"]])
     n = df.shape[0]
     if variant in ("perm", "perm_keepidx") and n > 0:
@@ -137,7 +152,7 @@ def etext(e, nm=IDENT):
     if t == "b":
         a, b = etext(e[2], nm), etext(e[3], nm)
         op = e[1]
-        if op in ("maximum", "minimum", "fmax", "fmin", "coalesce"):
+        if op in ("maximum", "minimum", "fmax", "fmin", "coalesce", "mod", "remainder"):
             return "(%s).%s(%s)" % (a, op, b)
         return "((%s) %s (%s))" % (a, op, b)
     if t == "t":
